@@ -161,8 +161,8 @@ impl Prop for Snapshot {
     }
     fn cases(tier: Tier) -> u32 {
         match tier {
-            Tier::Quick => 12_000,
-            Tier::Thorough => 1_200_000,
+            Tier::Quick => 120_000,
+            Tier::Thorough => 4_800_000,
         }
     }
     fn floors() -> Vec<(&'static str, u32)> {
